@@ -310,6 +310,13 @@ pub enum RosCase {
         others: Vec<AC>,
         limit: u64,
     },
+    /// a chain whose callbacks have their OWN arrival curves (e.g. jitter growing along the chain)
+    ChainGeneral {
+        supply: SupplySpec,
+        chain: Vec<AC>,
+        others: Vec<AC>,
+        limit: u64,
+    },
     /// rr (bw = false) or bw (bw = true) subchain analysis
     Sub {
         bw: bool,
@@ -367,6 +374,20 @@ pub fn run_ros(c: &RosCase) -> Outcome {
         } => {
             let sup = supply.build();
             let all: Vec<DynRbf> = costs.iter().map(|c| rbf(src, c)).collect();
+            let last = all.last().unwrap();
+            let prefix = Slice::of(&all[..all.len() - 1]);
+            let full = Slice::of(&all[..]);
+            let o = rbfs_of(others);
+            ros2::rta_processing_chain(&sup, last, &prefix, &full, &Slice::of(&o), d(*limit))
+        }
+        RosCase::ChainGeneral {
+            supply,
+            chain,
+            others,
+            limit,
+        } => {
+            let sup = supply.build();
+            let all = rbfs_of(chain);
             let last = all.last().unwrap();
             let prefix = Slice::of(&all[..all.len() - 1]);
             let full = Slice::of(&all[..]);
